@@ -77,3 +77,18 @@ Print Assumptions c03_smwpm_recovery_syndrome_all.
 Print Assumptions c03_smwpm_recovery_even_all.
 Print Assumptions c03_smwpm_walk_fuel_stable.
 Print Assumptions c03_smwpm_walk_last.
+
+(* ---- re-exported by tools/reexport.py: statements copied from `Check`, closed by `exact` ---- *)
+From QV Require Import Decoders.SmwpmToric.
+Theorem c03_smwpm_toric_path_syndrome_all : forall rows cols : Z, 2 <= rows -> rows mod 2 = 0 -> 2 <= cols -> cols mod 2 = 0 -> forall a b : Z * Z, LatticeArith.rottoric_is_z_plaquette a = LatticeArith.rottoric_is_z_plaquette b -> exists o : bsf, smwpm_toric_path_operator rows cols a b = Some o /\ length o = (RotToric.rt_n rows cols + RotToric.rt_n rows cols)%nat /\ syndrome_of (Code.stabs (RotToric.rottoric_code rows cols)) o = xorv (smwpm_toric_ind rows cols a) (smwpm_toric_ind rows cols b).
+Proof. exact smwpm_toric_path_syndrome_all. Qed.
+Theorem c03_smwpm_toric_recovery_syndrome_all : forall rows cols : Z, 2 <= rows -> rows mod 2 = 0 -> 2 <= cols -> cols mod 2 = 0 -> forall clusters : list (list tidx), Forall (fun cl : list tidx => smwpm_toric_cluster_split cl <> None) clusters -> exists r : bsf, smwpm_toric_recovery rows cols clusters = Some r /\ length r = (RotToric.rt_n rows cols + RotToric.rt_n rows cols)%nat /\ r = xsum (RotToric.rt_n rows cols + RotToric.rt_n rows cols) (map (smwpm_toric_pathop_tot rows cols) (smwpm_toric_all_pairs clusters)) /\ syndrome_of (Code.stabs (RotToric.rottoric_code rows cols)) r = xsum (length (RotToric.rt_plaquette_indices rows cols)) (map (smwpm_toric_pair_ind rows cols) (smwpm_toric_all_pairs clusters)).
+Proof. exact smwpm_toric_recovery_syndrome_all. Qed.
+Theorem c03_smwpm_toric_recovery_even_all : forall rows cols : Z, 2 <= rows -> rows mod 2 = 0 -> 2 <= cols -> cols mod 2 = 0 -> forall clusters : list (list tidx), Forall smwpm_toric_cluster_even clusters -> exists r : bsf, smwpm_toric_recovery rows cols clusters = Some r /\ length r = (RotToric.rt_n rows cols + RotToric.rt_n rows cols)%nat /\ syndrome_of (Code.stabs (RotToric.rottoric_code rows cols)) r = map (fun q : Z * Z => PlanarAll.xsumb (fun a : Z * Z => RotPlanar.rc_idx_eqb q (LatticeArith.rottoric_mod_index rows cols a)) (map smwpm_xy (concat clusters))) (RotToric.rt_plaquette_indices rows cols).
+Proof. exact smwpm_toric_recovery_even_all. Qed.
+Theorem c03_smwpm_toric_recovery_defined_iff : forall rows cols : Z, 2 <= rows -> rows mod 2 = 0 -> 2 <= cols -> cols mod 2 = 0 -> forall clusters : list (list tidx), smwpm_toric_recovery rows cols clusters <> None <-> Forall (fun cl : list tidx => smwpm_toric_cluster_split cl <> None) clusters.
+Proof. exact smwpm_toric_recovery_defined_iff. Qed.
+Print Assumptions c03_smwpm_toric_path_syndrome_all.
+Print Assumptions c03_smwpm_toric_recovery_syndrome_all.
+Print Assumptions c03_smwpm_toric_recovery_even_all.
+Print Assumptions c03_smwpm_toric_recovery_defined_iff.
